@@ -1412,3 +1412,55 @@ def c14(scn):
                 fails.append(("adi_is_peaceman_rachford", "node (%d,%d): erosion %r, direct solve of the two half-step systems gives %r (tolerance %r; K dt/d^2 up to %r)" % (i // cols, i % cols, e[i], float(want[i]), float(tol), fdt)))
                 break
     return fails[:20]
+
+
+# ----------------------------------------------------------------------------- C11
+
+def _check_partition(vals, first, last, nmax, where, fails):
+    nb = int(vals[0])
+    se = [(int(vals[1 + 2 * k]), int(vals[2 + 2 * k])) for k in range((len(vals) - 1) // 2)]
+    if last <= first:
+        if nb != 0:
+            fails.append(("blocks_partition", "%s: empty range but %d blocks" % (where, nb)))
+        return
+    if nb != len(se) or nb < 1 or nb > nmax:
+        fails.append(("blocks_partition", "%s: %d blocks (pool size %d), %d listed" % (where, nb, nmax, len(se))))
+        return
+    if se[0][0] != first or se[-1][1] != last or any(s >= e for s, e in se) or any(se[k][1] != se[k + 1][0] for k in range(nb - 1)):
+        fails.append(("blocks_partition", "%s: blocks %s do not partition [%d,%d) into non-empty contiguous pieces" % (where, se, first, last)))
+
+
+def c11(scn):
+    fails = []
+    for c in scn.calls:
+        if c.cmd == "blocks" and "blocks" in c.O:
+            first, last, n, mn = (int(x) for x in c.toks[1:5])
+            _check_partition(c.O["blocks"], first, last, n, "blocks(%d,%d,%d,%d)" % (first, last, n, mn), fails)
+        elif c.cmd == "pool":
+            size = int(c.toks[1])
+            runs = 0
+            for op in c.toks[2:]:
+                f = op.split(":")
+                if f[0] == "run":
+                    key = "run%d" % runs
+                    if key not in c.O:
+                        fails.append(("run_returns", "%s produced no result" % op))
+                    else:
+                        _check_partition(c.O[key], int(f[1]), int(f[2]), size, "%s on %d workers" % (op, size), fails)
+                        if c.O.get(key + "_once") != ["1"]:
+                            fails.append(("exactly_once", "%s on %d workers: some index was not executed exactly once (or a callback ran twice)" % (op, size)))
+                    runs += 1
+                elif f[0] == "resize":
+                    size = int(f[1])
+                    if c.O.get("resize_size") is None:
+                        fails.append(("resize_returns", op))
+            if c.O.get("pool_done") != ["1"]:
+                fails.append(("program_terminates", "program %s did not run to completion" % " ".join(c.toks[1:])))
+    return fails[:20]
+
+
+def c11_cause(scn, fail):
+    clause, wit = fail
+    if clause == "terminates":
+        return "lost_wakeup" if any(c.cmd == "pool" and "pause" in c.toks and "resume" in " ".join(c.toks) for c in scn.calls) else "other"
+    return "other"
